@@ -83,6 +83,16 @@ def gen(chk):
         for wn in sizes:
             c = S.build(rng, k, wn=wn, ht=(0 if k.startswith("p2tr") else 1))
             add("pairs", c, label=c["valid"])
+    # the referenced output does not exist: prevout index = number of outputs, a few more, 0xffffffff - with and without an explicit selection
+    import hashlib
+    for nout in (1, 2):
+        fund = T.make_tx(2, [(bytes(range(32)), 0, b"", 0xffffffff)], [(1000 + j, b"\x51") for j in range(nout)], 0)
+        ftxid = hashlib.sha256(hashlib.sha256(fund).digest()).digest()
+        for n in (nout, nout + 4, 0xffffffff, nout - 1):
+            for nin, pos in ((1, 0), (2, 1)):
+                vin = [(bytes(32), 0, b"", 0xffffffff)] * pos + [(ftxid, n, b"", 0xffffffff)]
+                c = {"spend": T.make_tx(2, vin, [(1, b"\x51")], 0).hex(), "fund": fund.hex(), "kind": "novout", "valid": n < nout}
+                add("select", c, sel=pos, label=(True if n < nout else "refused")); add("select", c, label=(True if n < nout else "refused"))
     # a key-path signature that begins with the annex tag 0x50 (a lone witness item is never an annex), valid and corrupted
     for mut in (None, "sigbyte"):
         c = S.build(rng, "p2tr-key", ht=0, enc="sig50", mutate=mut)
